@@ -1,3 +1,125 @@
-import GoldilocksVerif.Model.Ntt
+/-
+  C04 — "Over the same configuration space as the forward transform, the inverse transform delivers
+  out[k][c] = n^-1 * sum_j in[j][c]*w_n^(-j*k), so that INTT(NTT(x)) and NTT(INTT(x)) both return x as field elements
+  for every x. A null destination means in place."
+
+  Statements about the hand model `Model/Ntt.lean` (see Props/C03.lean for the scope: all shapes, all inputs; thread count
+  and caller scratch buffer are outside the sequential model; model = code for log2 n ≤ 30).
+-/
+import GoldilocksVerif.Lemmas.NttTop
+
 namespace GoldilocksVerif.C04
+open GoldilocksVerif.Model.Ntt GoldilocksVerif.NttSpec Finset
+
+/-- C04 (main statement): the inverse transform never aborts and delivers the inverse DFT of every column;
+    the source is returned unchanged when the destination is another buffer, a null destination behaves as in place. -/
+theorem C04_inverse_transform (maxDomainSize extension : Nat) (o : Obj) (hobj : mkObj maxDomainSize extension = some o)
+    (hext : extension ≤ 1) (d : Nat) (hn : 2 ^ d ≤ maxDomainSize)
+    (ncols nphase nblock : Nat) (hnc : 1 ≤ ncols) (mode : DstMode) (dstB srcB : Buf)
+    (hsrc : srcB.size = 2 ^ d * ncols) (hdst : mode = .other → dstB.size = 2 ^ d * ncols) :
+    ∃ out, intt o mode dstB srcB (2 ^ d) ncols nphase nblock false
+        = .ok (out, if mode = .other then srcB else out) ∧
+      out.size = 2 ^ d * ncols ∧
+      ∀ k c, k < 2 ^ d → c < ncols →
+        den (out.getD (k * ncols + c) 0#64)
+          = ((2 ^ d : Nat) : F)⁻¹ * ∑ j ∈ range (2 ^ d), den (srcB.getD (j * ncols + c) 0#64) * (omega d)⁻¹ ^ (j * k) := by
+  have hm : maxDomainSize ≠ 0 := by have := Nat.two_pow_pos d; omega
+  have hO := mkObj_ok maxDomainSize extension o hm hext hobj
+  have hd : d ≤ log2 maxDomainSize := (Nat.le_log2 hm).mpr hn
+  have hsz : (if mode = .other then dstB else srcB).size = 2 ^ d * ncols := by
+    by_cases h : mode = .other
+    · rw [if_pos h]; exact hdst h
+    · rw [if_neg h]; exact hsrc
+  obtain ⟨out, e, s, c⟩ := intt_inverse o _ hO mode dstB srcB d ncols nphase nblock hd hnc (by rw [hsz])
+  exact ⟨out, e, by rw [s, hsz], c⟩
+
+/-- C04: INTT(NTT(x)) = x as field elements — any two configurations (phase, block, destination mode) of the two calls -/
+theorem C04_intt_of_ntt (maxDomainSize extension : Nat) (o : Obj) (hobj : mkObj maxDomainSize extension = some o)
+    (hext : extension ≤ 1) (d : Nat) (hn : 2 ^ d ≤ maxDomainSize) (ncols : Nat) (hnc : 1 ≤ ncols)
+    (nphase1 nblock1 nphase2 nblock2 : Nat) (mode1 mode2 : DstMode) (dst1 dst2 x : Buf)
+    (hx : x.size = 2 ^ d * ncols) (hd1 : mode1 = .other → dst1.size = 2 ^ d * ncols)
+    (hd2 : mode2 = .other → dst2.size = 2 ^ d * ncols) :
+    ∃ y z, ntt o mode1 dst1 x (2 ^ d) ncols nphase1 nblock1 false false = .ok (y, if mode1 = .other then x else y) ∧
+      intt o mode2 dst2 y (2 ^ d) ncols nphase2 nblock2 false = .ok (z, if mode2 = .other then y else z) ∧
+      ∀ k c, k < 2 ^ d → c < ncols → den (z.getD (k * ncols + c) 0#64) = den (x.getD (k * ncols + c) 0#64) := by
+  have hm : maxDomainSize ≠ 0 := by have := Nat.two_pow_pos d; omega
+  have hO := mkObj_ok maxDomainSize extension o hm hext hobj
+  have hd : d ≤ log2 maxDomainSize := (Nat.le_log2 hm).mpr hn
+  have hd32 : d ≤ 32 := Nat.le_trans hd hO.dle
+  have hsz1 : (if mode1 = .other then dst1 else x).size = 2 ^ d * ncols := by
+    by_cases h : mode1 = .other
+    · rw [if_pos h]; exact hd1 h
+    · rw [if_neg h]; exact hx
+  obtain ⟨y, e1, s1, c1⟩ := ntt_forward o _ hO mode1 dst1 x d ncols nphase1 nblock1 hd hnc (by rw [hsz1])
+  have hy : y.size = 2 ^ d * ncols := by rw [s1, hsz1]
+  have hsz2 : (if mode2 = .other then dst2 else y).size = 2 ^ d * ncols := by
+    by_cases h : mode2 = .other
+    · rw [if_pos h]; exact hd2 h
+    · rw [if_neg h]; exact hy
+  obtain ⟨z, e2, _, c2⟩ := intt_inverse o _ hO mode2 dst2 y d ncols nphase2 nblock2 hd hnc (by rw [hsz2])
+  refine ⟨y, z, e1, e2, ?_⟩
+  intro k c hk hc
+  have h2 := c2 k c hk hc
+  show cell z ncols k c = cell x ncols k c
+  rw [h2, idft_congr _ _ _ (dft (omega d) (2 ^ d) (fun j => cell x ncols j c)) k (fun j hj => c1 j c hj hc),
+    idft_dft (omega_prim d hd32) (two_pow_ne_zero d) _ hk]
+
+/-- C04: NTT(INTT(x)) = x as field elements -/
+theorem C04_ntt_of_intt (maxDomainSize extension : Nat) (o : Obj) (hobj : mkObj maxDomainSize extension = some o)
+    (hext : extension ≤ 1) (d : Nat) (hn : 2 ^ d ≤ maxDomainSize) (ncols : Nat) (hnc : 1 ≤ ncols)
+    (nphase1 nblock1 nphase2 nblock2 : Nat) (mode1 mode2 : DstMode) (dst1 dst2 x : Buf)
+    (hx : x.size = 2 ^ d * ncols) (hd1 : mode1 = .other → dst1.size = 2 ^ d * ncols)
+    (hd2 : mode2 = .other → dst2.size = 2 ^ d * ncols) :
+    ∃ y z, intt o mode1 dst1 x (2 ^ d) ncols nphase1 nblock1 false = .ok (y, if mode1 = .other then x else y) ∧
+      ntt o mode2 dst2 y (2 ^ d) ncols nphase2 nblock2 false false = .ok (z, if mode2 = .other then y else z) ∧
+      ∀ k c, k < 2 ^ d → c < ncols → den (z.getD (k * ncols + c) 0#64) = den (x.getD (k * ncols + c) 0#64) := by
+  have hm : maxDomainSize ≠ 0 := by have := Nat.two_pow_pos d; omega
+  have hO := mkObj_ok maxDomainSize extension o hm hext hobj
+  have hd : d ≤ log2 maxDomainSize := (Nat.le_log2 hm).mpr hn
+  have hd32 : d ≤ 32 := Nat.le_trans hd hO.dle
+  have hsz1 : (if mode1 = .other then dst1 else x).size = 2 ^ d * ncols := by
+    by_cases h : mode1 = .other
+    · rw [if_pos h]; exact hd1 h
+    · rw [if_neg h]; exact hx
+  obtain ⟨y, e1, s1, c1⟩ := intt_inverse o _ hO mode1 dst1 x d ncols nphase1 nblock1 hd hnc (by rw [hsz1])
+  have hy : y.size = 2 ^ d * ncols := by rw [s1, hsz1]
+  have hsz2 : (if mode2 = .other then dst2 else y).size = 2 ^ d * ncols := by
+    by_cases h : mode2 = .other
+    · rw [if_pos h]; exact hd2 h
+    · rw [if_neg h]; exact hy
+  obtain ⟨z, e2, _, c2⟩ := ntt_forward o _ hO mode2 dst2 y d ncols nphase2 nblock2 hd hnc (by rw [hsz2])
+  refine ⟨y, z, e1, e2, ?_⟩
+  intro k c hk hc
+  have h2 := c2 k c hk hc
+  show cell z ncols k c = cell x ncols k c
+  rw [h2, dft_congr _ _ _ (idft (omega d) (2 ^ d) (fun j => cell x ncols j c)) k (fun j hj => c1 j c hj hc),
+    dft_idft (omega_prim d hd32) (two_pow_ne_zero d) _ hk]
+
+/-- C04: a null destination means in place — for ALL arguments -/
+theorem C04_null_means_in_place (o : Obj) (dstB srcB : Buf) (size ncols nphase nblock : Nat) (extend : Bool) :
+    intt o .null dstB srcB size ncols nphase nblock extend = intt o .same dstB srcB size ncols nphase nblock extend :=
+  intt_null o dstB srcB size ncols nphase nblock extend
+
+/-- C04: when the destination is a different buffer the source is left unchanged — for ALL arguments -/
+theorem C04_source_unchanged (o : Obj) (dstB srcB : Buf) (size ncols nphase nblock : Nat) (d s' : Buf)
+    (h : intt o .other dstB srcB size ncols nphase nblock false = .ok (d, s')) : s' = srcB :=
+  intt_other_src o dstB srcB size ncols nphase nblock false d s' h
+
+/-- C04: size 0 or zero columns is a no-op -/
+theorem C04_noop (o : Obj) (mode : DstMode) (dstB srcB : Buf) (size ncols nphase nblock : Nat)
+    (h : ncols = 0 ∨ size = 0) :
+    intt o mode dstB srcB size ncols nphase nblock false = .ok (if mode = .other then dstB else srcB, srcB) :=
+  intt_noop o mode dstB srcB size ncols nphase nblock false h
+
+/-- non-vacuity: the hypotheses of the round-trip statement are satisfiable (size 8 in an object of size 8, 2 columns,
+    forward into another buffer with 3 phases / 2 blocks, inverse in place through a null destination) -/
+example : ∃ o y z, mkObj 8 1 = some o ∧
+    ntt o .other (Array.replicate (2 ^ 3 * 2) 0#64) (Array.replicate (2 ^ 3 * 2) 5#64) (2 ^ 3) 2 3 2 false false
+      = .ok (y, Array.replicate (2 ^ 3 * 2) 5#64) ∧
+    intt o .null #[] y (2 ^ 3) 2 1 1 false = .ok (z, z) := by
+  obtain ⟨o, ho⟩ := mkObj_some 8 1 (by decide)
+  obtain ⟨y, z, e1, e2, _⟩ := C04_intt_of_ntt 8 1 o ho (by omega) 3 (by omega) 2 (by omega) 3 2 1 1 .other .null
+    (Array.replicate (2 ^ 3 * 2) 0#64) #[] (Array.replicate (2 ^ 3 * 2) 5#64) (by simp) (by simp) (by simp)
+  exact ⟨o, y, z, ho, e1, e2⟩
+
 end GoldilocksVerif.C04
